@@ -99,22 +99,29 @@ use crate::chess::game::Game;
 use crate::engine::uci::commands::{Position, UciCommand};
 use crate::engine::uci::verif_access as ua;
 
-static mut STASH: Option<Game> = None;
-static mut WATCHED: u16 = 0;
+static mut STASH: [Option<Game>; 2] = [None, None];
+static mut WATCHED: [u16; 2] = [0, 0];
 
-/// contract stub of `Game::from_fen` (reading FEN text is C06's subject and string code): hands back the arbitrary valid game
+/// contract stub of `Game::from_fen` (reading FEN text is C06's subject and string code): hands back the arbitrary valid game the
+/// harness prepared for this command (no earlier moves in it, as after the real reader)
 pub fn stub_from_fen(_fen: &str) -> Result<Game, String> {
-    unsafe { match (*core::ptr::addr_of_mut!(STASH)).take() { Some(g) => Ok(g), None => Err(String::new()) } }
+    unsafe {
+        let st = &mut *core::ptr::addr_of_mut!(STASH);
+        if let Some(g) = st[0].take() { return Ok(g); }
+        match st[1].take() { Some(g) => Ok(g), None => Err(String::new()) }
+    }
 }
-/// contract stub of `Game::moves` (C01: exactly the legal moves): a list that contains the oracle-legal watched move at an
-/// arbitrary place among two other arbitrary moves (legal moves of one position differ in (source, destination, promotion))
+fn same_triple(a: u16, b: u16) -> bool { pos::raw_src(a) == pos::raw_src(b) && pos::raw_dst(a) == pos::raw_dst(b) && pos::raw_promo(a) == pos::raw_promo(b) }
+/// contract stub of `Game::moves` (C01: exactly the legal moves): a 3-element list that contains the oracle-legal watched move(s) at
+/// arbitrary places among arbitrary other moves (legal moves of one position differ in (source, destination, promotion))
 #[cfg(kani)]
 pub fn stub_moves(_g: &Game) -> MoveList {
-    let w = unsafe { WATCHED };
+    let (w, w2) = unsafe { (WATCHED[0], WATCHED[1]) };
     let (o0, o1, k): (u16, u16, u8) = (kani::any(), kani::any(), kani::any());
-    let differs = |o: u16| o != 0 && valid_flags(o) && !(pos::raw_src(o) == pos::raw_src(w) && pos::raw_dst(o) == pos::raw_dst(w) && pos::raw_promo(o) == pos::raw_promo(w));
-    kani::assume(differs(o0) && differs(o1) && k < 3);
-    let (a, b, c) = match k { 0 => (w, o0, o1), 1 => (o0, w, o1), _ => (o0, o1, w) };
+    let differs = |o: u16| o != 0 && valid_flags(o) && !same_triple(o, w) && (w2 == 0 || !same_triple(o, w2));
+    kani::assume(differs(o0) && differs(o1) && !same_triple(o0, o1) && k < 3);
+    let second = if w2 != 0 && w2 != w { w2 } else { o1 };
+    let (a, b, c) = match k { 0 => (w, o0, second), 1 => (o0, second, w), _ => (second, w, o0) };
     let mut list = MoveList::new();
     list.push(move_of(a));
     list.push(move_of(b));
@@ -122,37 +129,74 @@ pub fn stub_moves(_g: &Game) -> MoveList {
     list
 }
 
-/// `position fen <F> moves <m>`: the handler ends in exactly the game reached by playing the legal move whose long-algebraic
-/// text is <m> from <F> (placement, side, rights, ep target, clocks, history length, all three board views)
-pub fn position_cmd(kind: usize, side: u8) {
+/// The real `position` handler. pattern 0: `position fen <F> moves <m>` on a fresh engine; 1: `... moves <m>` then `position fen <F>`
+/// (take-back); 2: `position fen <F>` then `... moves <m>` (the GUI extends the game); 3: `... moves <m>` then `... moves <m2>` (same or
+/// another move). In every case the engine must end in exactly the game reached by playing the LAST command's moves from <F>
+/// (placement, side, rights, ep target, clocks, history length, all three board views): a position command rebuilds from scratch.
+pub fn position_cmd(kind: usize, side: u8, pattern: u8) {
     let (pre, g, w, m) = step::any_case(kind, side);
     #[allow(unused_mut)] let mut pre = pre;
+    #[allow(unused_mut)] let mut g = g;
+    // as after the real FEN reader: no earlier moves
+    if let Some(e) = g.history.pop() { std::mem::forget(e); }
+    pre.hist_len = 0;
     let sq: usize = kani::any();
     kani::assume(sq < 64);
+    // the second command's move (pattern 3): any legal move of the same position, possibly the same one
+    let (w2, m2) = if pattern == 3 { step::any_legal(&pre.p) } else { (w, m) };
     let um = UciMove::from(move_of(w));
+    let um2 = UciMove::from(move_of(w2));
     #[cfg(not(test))]
-    let (fen, mut uci) = {
-        let uci = ua::mk_uci(pos::game_of(&pre.p));
-        unsafe { STASH = Some(g); WATCHED = w; }
-        (String::new(), uci)
+    let (fen, fen2, mut uci) = {
+        // the engine holds some OTHER game before the first command (natively: the start position); keys of different positions
+        // differ (C03), keys of the same position are equal: the key is a symbolic function value here because the toggles are no-ops
+        let (z0, zf): (u64, u64) = (kani::any(), kani::any());
+        kani::assume(z0 != zf);
+        let kings = pos::BPos { pcs: [[0, 0, 0, 0, 0, 1 << 4], [0, 0, 0, 0, 0, 1 << 60]], white_to_move: true, rights: [[false; 2]; 2], ep: 64 };
+        let mut held = pos::game_of(&kings);
+        held.zobrist = crate::chess::zobrist::ZobristHash(z0);
+        let uci = ua::mk_uci(held);
+        g.zobrist = crate::chess::zobrist::ZobristHash(zf);
+        let g2 = g.clone();
+        unsafe { STASH = [Some(g), if pattern == 0 { std::mem::forget(g2); None } else { Some(g2) }]; WATCHED = [w, if pattern == 3 { w2 } else { 0 }]; }
+        (String::new(), String::new(), uci)
     };
     #[cfg(test)]
-    let (fen, mut uci) = {
+    let (fen, fen2, mut uci) = {
         // native replay: no stubs - the real FEN reader and the real generator run; counters come from the parsed game
         std::mem::forget(g);
         let fen = format!("{} 0 1", pos::fen_of(&pre.p));
-        println!("REPLAY-CASE {{\"fen\":\"{}\",\"move\":\"{}\"}}", fen, pos::move_text(w));
+        println!("REPLAY-CASE {{\"pattern\":{},\"fen\":\"{}\",\"move\":\"{}\",\"move2\":\"{}\"}}", pattern, fen, pos::move_text(w), pos::move_text(w2));
         let g0 = Game::from_fen(&fen).unwrap();
         pre.clock = g0.halfmove_clock;
         pre.plies = g0.plies;
         pre.hist_len = g0.history.len();
-        (fen, ua::mk_uci(Game::new()))
+        (fen.clone(), fen, ua::mk_uci(Game::new()))
     };
-    let cmd = UciCommand::Position { position: Position::Fen(fen), moves: vec![um] };
+    let (first, second): (Vec<UciMove>, Option<Vec<UciMove>>) = match pattern {
+        0 => (vec![um], None),
+        1 => (vec![um], Some(Vec::new())),
+        2 => (Vec::new(), Some(vec![um])),
+        _ => (vec![um], Some(vec![um2])),
+    };
+    let cmd = UciCommand::Position { position: Position::Fen(fen), moves: first };
     let ok = ua::execute_ok(&mut uci, &cmd);
     assert!(ok);
-    let want = step::expected_after(&pre.p, w, &m);
-    assert!(step::game_is(ua::game(&uci), &want, step::expected_clock(&pre, &m), pre.plies + 1, pre.hist_len + 1, sq));
+    let (last_w, last_m, played) = match pattern { 1 => (w, m, false), 3 => (w2, m2, true), _ => (w, m, true) };
+    if let Some(moves2) = second {
+        let cmd2 = UciCommand::Position { position: Position::Fen(fen2), moves: moves2 };
+        let ok2 = ua::execute_ok(&mut uci, &cmd2);
+        assert!(ok2);
+        std::mem::forget(cmd2);
+    } else {
+        std::mem::forget(fen2);
+    }
+    if played {
+        let want = step::expected_after(&pre.p, last_w, &last_m);
+        assert!(step::game_is(ua::game(&uci), &want, step::expected_clock(&pre, &last_m), pre.plies + 1, pre.hist_len + 1, sq));
+    } else {
+        assert!(step::game_is(ua::game(&uci), &pre.p, pre.clock, pre.plies, pre.hist_len, sq));
+    }
     kani::cover!(true);
     kani::cover!(m.ep);
     kani::cover!(m.capture && pos::raw_promo(w) != 0);
